@@ -51,18 +51,40 @@ type world struct {
 // verdict for host h for a query spanning sequence stamps [q0,q1] at fake
 // time now: must = every admissible reading filters h, may = some does.
 func (w *world) verdict(h string, now time.Duration, q0, q1 int64) (must, may bool) {
+	// A Failed call that took fake time (its task was stalled inside it)
+	// recorded its failure at an unknown instant of [t0,t1]. The rule is
+	// monotone — more failures never un-filter a host — so "must" is judged
+	// without such failures, and "must not" is only asserted when none of them
+	// can matter any more (the whole interval is older than 2 x FailTimeout).
 	var before, all []time.Duration
+	vague := false
 	for _, r := range w.recs {
 		if r.host != h {
 			continue
 		}
-		if r.s1 != 0 && r.s1 < q0 {
+		instant := r.s1 != 0 && r.t1 == r.t0
+		if !instant {
+			end := r.t1
+			if r.s1 == 0 {
+				end = now
+			}
+			if r.s0 < q1 && end+2*w.ft >= now {
+				vague = true
+			}
+			continue
+		}
+		if r.s1 < q0 {
 			before = append(before, r.t0)
 		}
 		if r.s0 < q1 {
 			all = append(all, r.t0)
 		}
 	}
+	defer func() {
+		if vague {
+			may = true
+		}
+	}()
 	eval := func(ts []time.Duration, strict bool) bool {
 		for _, u := range ts {
 			if u > now {
@@ -98,7 +120,6 @@ func (w *world) failed(call func(string), h string) {
 	call(h)
 	r.t1, r.s1 = s.Now(), s.NextSeq()
 	if r.t1 != r.t0 {
-		w.taint[h] = true
 		s.Probe("failed_call_took_fake_time")
 	}
 	s.Logf("failed %s", h)
@@ -125,9 +146,6 @@ func (w *world) checkRun(in []string, out stringset.Set, t0, t1 time.Duration, q
 		return
 	}
 	for _, h := range in {
-		if w.taint[h] {
-			continue
-		}
 		must, may := w.verdict(h, t0, q0, q1)
 		if must != may {
 			w.nBoth++
@@ -160,11 +178,6 @@ func (w *world) checkResolve(list []string, out stringset.Set, t0, t1 time.Durat
 	if t0 != t1 {
 		s.Probe("query_took_fake_time")
 		return
-	}
-	for _, h := range list {
-		if w.taint[h] {
-			return
-		}
 	}
 	nMust, nMay := 0, 0
 	var mustL []bool
@@ -234,6 +247,11 @@ func body(s *simrt.Sim, tier string) {
 	nOps := 6 + tp.Draw(30)
 	if concurrent {
 		nOps = 4 + tp.Draw(14)
+		if tp.Chance(400) {
+			// a caller is descheduled in the middle of a call while the clock moves on
+			s.InjectPauses(1+tp.Draw(3), 40*nTasks*nOps, 2*w.ft)
+			s.Probe("pauses_armed")
+		}
 	}
 	if tier == "thorough" {
 		nOps += tp.Draw(20)
